@@ -63,6 +63,9 @@ func (v *Reader) Seek(offset int) {
 }
 
 func (v *Reader) Read(length int) string {
+	if length == 0 {
+		return ""
+	}
 	if v.offset+length-1 >= v.size {
 		return ""
 	}
@@ -78,6 +81,9 @@ func (v *Reader) Read(length int) string {
 }
 
 func (v *Reader) ReadAt(length int, offset int) string {
+	if length == 0 {
+		return ""
+	}
 	if offset+length-1 >= v.size {
 		return ""
 	}
